@@ -31,6 +31,7 @@ type Config struct {
 	Verbose     bool
 	UnwindFn    map[string]int
 	Redirect    map[string]string // real function (ssa name) -> harness function in the entry's package
+	PureFns     map[string]bool   // real side-effect-free functions evaluated merged (callee summarisation)
 }
 
 type VecEntry struct {
